@@ -32,13 +32,15 @@ func vfWideLines(name string, n int) string {
 	k := vfChoice(name+".n", n+1)
 	s := ""
 	for i := 0; i < k; i++ {
-		switch vfChoice(vfName(name+".a", i), 3) {
+		switch vfChoice(vfName(name+".a", i), 4) {
 		case 0:
 			s += "x"
 		case 1:
 			s += "世"
 		case 2:
 			s += "\n"
+		case 3:
+			s += "\U0001F4AA\u200d\U0001F4AA" // one grapheme cluster of several wide runes
 		}
 	}
 	return s
@@ -53,9 +55,9 @@ func VerifC18_metrics() {
 }
 
 func VerifC18_widelines() {
-	n := 6
+	n := 5
 	if vfTier() == 1 {
-		n = 8
+		n = 7
 	}
 	verifC18Metrics(vfWideLines("w", n))
 }
